@@ -557,8 +557,11 @@ def realise_single(DP, virocon, c):
             start = [(-1.0 if (name == "logistic4" and i == 2) else 1.0) for i in range(npar)]
             bounds = [((0.0, None) if st > 0 else (None, 0.0)) for st in start]
         elif bk == "equal":                      # lower == upper: the parameter is held at that value ("0 <= z <= 0" in the docstring)
+            # the held value is the start value (1) in a third of the cases and away from it otherwise (for shapes that are
+            # not linear in their parameters only positive values near the start keep the other parameters identifiable)
             bounds = [(None, None)] * npar
-            bounds[1] = (1.0, 1.0)
+            veq = ([1.0, 0.0, 0.25, -0.5, 2.0, 1.0] if linear else [1.0, 0.5, 2.0])[c["seed"] % (6 if linear else 3)]
+            bounds[1] = (veq, veq)
         else:
             bounds = [((None, None) if i % 2 else (float(min(v, 1.0) - 1.0), None)) for i, v in enumerate(pt)]
         if name == "logistic4" and bounds is not None:
@@ -628,7 +631,16 @@ def single_oracle(DP, F, virocon, c, want_calls=False):
             return ("fail", {"clause": "constraints", "site": site},
                     "%s: declared inequality constraint %d violated: c(p) = %.6g < 0 at p = %r" % (R["name"], i, v, [float(t) for t in p]), calls)
     s_opt = ssr(f, x, y, p, sigma)
-    s_start = ssr(f, x, y, p0, sigma)
+    # "no larger than at the start parameters": the start as the optimiser may use it, i.e. moved into the declared box (a parameter held by
+    # equal bounds at a value other than its start value makes the raw start inadmissible)
+    p0c = list(p0)
+    if R["bounds"] is not None:
+        for i, (lo, hi) in enumerate(R["bounds"]):
+            if lo is not None and p0c[i] < lo:
+                p0c[i] = float(lo)
+            if hi is not None and p0c[i] > hi:
+                p0c[i] = float(hi)
+    s_start = ssr(f, x, y, p0c, sigma)
     if not math.isfinite(s_opt):
         return ("unjudgeable", None, "non-finite residual", calls)
     if math.isfinite(s_start) and s_opt > s_start * (1 + (1e-9 if path == "curve_fit" else 1e-6)) + 1e-300:
@@ -640,6 +652,8 @@ def single_oracle(DP, F, virocon, c, want_calls=False):
     if path == "curve_fit" and R["bounds"] is not None:
         # trust-region-reflective keeps strictly inside the box and stops by xtol next to an ACTIVE bound
         for (lo, hi), v in zip(R["bounds"], p):
+            if lo is not None and lo == hi:
+                continue        # a held parameter is not a bound the trust region creeps towards
             for bnd in (lo, hi):
                 if bnd is not None and abs(v - bnd) <= 1e-3 * max(1.0, abs(bnd)):
                     rel_tol, abs_tol = 1e-3, 1e-9
@@ -680,6 +694,26 @@ def single_oracle(DP, F, virocon, c, want_calls=False):
             if s_opt > s_ref * (1 + 1e-6) + 1e-9 * float(np.sum(y * y)) or d > 1e-3:
                 return ("fail", {"clause": "linear-lsq", "site": site},
                         "%s: fitted %r differs from the linear least-squares solution %r (rel %.3g)" % (R["name"], [float(t) for t in p], [float(t) for t in ref], d), calls)
+    # --- linear shapes with parameters HELD by equal bounds (all other bounds absent): the free parameters are the unique linear
+    #     least-squares solution of the data minus the held parameters' contribution
+    if R["linear"] and R["cons"] is None and R["bounds"] is not None and any(lo is not None and lo == hi for lo, hi in R["bounds"]) \
+            and all((lo is None and hi is None) or (lo is not None and lo == hi) for lo, hi in R["bounds"]):
+        held = [i for i, (lo, hi) in enumerate(R["bounds"]) if lo is not None and lo == hi]
+        free = [i for i in range(R["npar"]) if i not in held]
+        zero = np.asarray(R["func"](x, *np.zeros(R["npar"])), dtype=float)
+        A = np.c_[[np.asarray(R["func"](x, *e), dtype=float) - zero for e in np.eye(R["npar"])]].T
+        w = 1.0 / np.asarray(sigma) if sigma is not None else np.ones_like(x)
+        rhs = y - zero - A[:, held] @ np.array([R["bounds"][i][0] for i in held], dtype=float)
+        if free and len(x) >= len(free) and np.linalg.cond(A[:, free] * w[:, None]) < 1e6:
+            ref = np.array(p, dtype=float)
+            ref[held] = [R["bounds"][i][0] for i in held]
+            ref[free] = np.linalg.lstsq(A[:, free] * w[:, None], rhs * w, rcond=None)[0]
+            s_ref = ssr(f, x, y, ref, sigma)
+            d = float(np.max(np.abs(p - ref)) / max(1.0, float(np.max(np.abs(ref)))))
+            if s_opt > s_ref * (1 + 1e-6) + 1e-9 * float(np.sum(y * y)) or d > 1e-3:
+                return ("fail", {"clause": "linear-lsq", "site": site, "kind": "held-by-equal-bounds"},
+                        "%s with bounds %r (parameter(s) %r held): fitted %r, but the linear least-squares solution for the free parameters is %r "
+                        "(residual %.8g against %.8g)" % (R["name"], R["bounds"], held, [float(t) for t in p], [float(t) for t in ref], s_opt, s_ref), calls)
     return ("ok" if judge_pert else "ok-no-perturbation-judgement", None, "", calls)
 
 
@@ -1181,6 +1215,13 @@ def run(ctx):
     # ---------------- (d) single functions: dispatch correspondence + property oracle
     n_single = ctx.n(700, 8000)
     singles = [gen_single(rng, virocon, k) for k in range(n_single)]
+    # EVERY run: shapes linear in their parameters with one parameter held (lower == upper) at 0, 0.25, -0.5, 2 -- away from the start value 1 --
+    # with and without weights
+    for j, (shp, veq_idx) in enumerate([("lin", 1), ("poly2", 1), ("sqrt2", 2), ("poly2", 3), ("lin", 4), ("poly2", 2), ("sqrt2", 3), ("poly2", 4)]):
+        c = gen_single(rng, virocon, 1)
+        c.update(shape=("random", shp), bounds_kind="equal", cons_kind="none", weights=(j % 3 == 2), npts=max(c["npts"], 5))
+        c["seed"] = c["seed"] - c["seed"] % 6 + veq_idx
+        singles.insert(j, c)
     disp_lines, disp_cases = [], []
     single_fail = []
     stat = {}
